@@ -22,6 +22,7 @@ ASSUMPTIONS = V.ASSUMPTIONS
 
 
 def run(ctx, model_ok):
+    V.record_ast(ctx)
     V.small_functions(ctx, model_ok)
     V.unit(ctx, "C02", model_ok)
     V.e2e(ctx, "C02")
